@@ -22,20 +22,20 @@ CFG = {
             "surrogate-pair escapes, white space, member order); bodies framed by Content-Length or chunked (all-1, "
             "one chunk, cuts after the first / before the last byte, random); content-type spellings (absent, letter "
             "case, blanks, parameters); multipart boundaries of RFC 2046 bchars as token or quoted-string with other "
-            "parameters before/after and any case of the parameter name. The handler-entered counter lives in the "
+            "parameters before/after, any case of the parameter name and optional blanks (SP/HTAB) around every ';'. The handler-entered counter lives in the "
             "server's private context. Judge: spec = the handler ran once, echoed exactly the client's values and its "
             "own method/URI/marker header/peer port, and the server still answers; model = Extract.v evaluated on the "
-            "wire strings gives the same values (serde_json: oracle called directly, the way body.rs calls it). "
+            "wire strings gives the same values (serde_json: oracle called directly - the whole buffer as one JSON document, as body.rs requires). "
             "Concurrency slice: K in {2,8,32} connections x pipelining depth {1,4} released together through a "
             "barrier, every request carrying unique markers in path, query, body and a header. Non-trivial: every "
             "case except an empty raw body; distinct by case content.",
     "trusted_base": COMMON_TB + [
         "serde_json (library): Section variables json_de/json_ser with the contract json_de (json_ser v) = Some v; "
-        "per case the harness calls serde_json directly (one value off the front of the buffer, as body.rs does) "
-        "and hands the result to the model as the parser oracle",
+        "per case the harness calls serde_json::from_slice (a value, then end of input - what body.rs does) and "
+        "hands the result to the model as the parser oracle",
         "multer's multipart body parser (library, not a harness dependency): contract 'with the right boundary the "
-        "parts come out'; the model decides the boundary (mime 0.3.16 parse.rs + multer::parse_boundary are "
-        "transcribed), the echo of the parts is compared with the client's",
+        "parts come out'; the model decides the boundary (body.rs' trimming of the ';'-separated parts, mime 0.3.16 "
+        "parse.rs and multer::parse_boundary are transcribed), the echo of the parts is compared with the client's",
         "serde's derive for plain structs (duplicate check before the value is read, unknown keys ignored, "
         "missing-field rule) and serde_urlencoded 0.7.1 Part / form_urlencoded 1.2.1 parse / percent-encoding 2.3.1 / "
         "String::from_utf8_lossy / core::num FromStr / char::from_str: transcribed in Scalars.v, Query.v, Extract.v, "
@@ -59,16 +59,18 @@ CFG = {
                 "(typed fields, wildcard, any variable order); form_urlencoded parsing inverts every legal encoding "
                 "and the query struct equals the encoded value incl. absent Options/defaults/unknown keys; JSON / "
                 "url-encoded / raw bodies are delivered for every content-type spelling and every chunking (relative "
-                "to the serde_json contract); the multipart boundary is found for token/quoted, any parameter order "
-                "and case (mime/multer transcribed); frame property of a request-indexed transition system. "
+                "to the serde_json contract); the multipart boundary is found for token/quoted values, any parameter "
+                "order, any letter case and optional blanks around every ';' (normalisation + mime/multer "
+                "transcribed; residual exclusions of the grammar: an empty parameter ';;' and another parameter "
+                "whose quoted-string is empty or holds a quoted-pair or HTAB); frame property of a request-indexed transition system. "
                 "Correspondence: ~1.9k (quick) / ~11k (thorough) generated valid requests against a live server with "
                 "echo handlers, spec and model evaluated in Coq on each observation; concurrency slice K x depth.",
         "design_ref": "DESIGN.md §6 C09",
         "note": "partial: the concurrency clause is proved of the model and sampled on the code (real schedules "
                 "cannot be enumerated); serde_json and multer's body parser are oracles with stated contracts; hyper "
-                "and routing are taken as given. Open known findings K9a (u128/i128 query and form fields are "
-                "refused whatever their value) and K9b (optional white space before ';' in a multipart content type "
-                "is refused).",
+                "and routing are taken as given. Open known finding K9a (u128/i128 query and form fields are "
+                "refused whatever their value: serde_urlencoded). K9b (blanks before ';' in a multipart content "
+                "type) was repaired in /repo (df8298c); its witness runs first on every check.",
         "technique": "Coq proof (induction over encodings, declarative characterisation of serde's derived struct "
                      "deserialiser, transcribed media-type state machine) + live-server echo correspondence",
     },
